@@ -753,6 +753,8 @@ func (env *SpecEnv) call(c *ast.CallExpr) Val {
 		case "be64":
 			s, i := env.expr(c.Args[0]), env.expr(c.Args[1])
 			return intVal(types.Typ[types.Int], beTerm(fc, env.st, s, i.S, 8))
+		case "nanos": // Unix nanoseconds of a time.Time value
+			return intVal(untypedInt, tnanos(fc, env.expr(c.Args[0])))
 		case "tagof": // dynamic type tag of an interface value
 			return intVal(untypedInt, env.expr(c.Args[0]).Tag)
 		case "valof": // payload identity of an interface value
